@@ -109,6 +109,8 @@ def tokenize(src):
             raise ReadError("cannot tokenize at %r" % src[i:i + 30])
         k = m.lastgroup
         if k == "badnum":
+            if re.match(r"^\d+[uU]?[lL]$", m.group()):
+                raise OutOfFragment("64-bit integer literal")
             raise ReadError("bad numeric literal %r" % m.group())
         if k not in ("ws", "lcomment", "bcomment"):
             toks.append(Tok(k, m.group(), i))
